@@ -50,22 +50,25 @@ pub fn bitvector(l: usize, rank: bool) {
     truncated(&bv);
 }
 
-/// skip_option: reader is left exactly past the optional (present / absent / nested), and a
-/// stream cut inside the optional body is an error.
-pub fn skip_option(n: usize) {
+/// skip_option on an intact stream lands exactly on the next value.
+pub fn skip_option_intact(n: usize) {
     let some: Option<Vec<u64>> = Some(sym_vec_u64(n));
     let tail = sym::u64();
     let mut buf = [0u8; BUF];
     let size = some.size_in_bytes();
     { let mut w: &mut [u8] = &mut buf; some.serialize(&mut w).unwrap(); tail.serialize(&mut w).unwrap(); }
-    // intact stream: skipping lands exactly on the next value
-    {
-        let mut r: &[u8] = &buf[..size + 8];
-        assert!(serialize::skip_option(&mut r).is_ok());
-        assert!(r.len() == 8);
-        assert!(u64::load(&mut r).unwrap() == tail);
-    }
-    // cut strictly inside the optional (header included)
+    let mut r: &[u8] = &buf[..size + 8];
+    assert!(serialize::skip_option(&mut r).is_ok());
+    assert!(r.len() == 8);
+    assert!(u64::load(&mut r).unwrap() == tail);
+}
+
+/// skip_option on a stream cut strictly inside the optional (header included) is an error.
+pub fn skip_option_cut(n: usize) {
+    let some: Option<Vec<u64>> = Some(sym_vec_u64(n));
+    let mut buf = [0u8; BUF];
+    let size = some.size_in_bytes();
+    { let mut w: &mut [u8] = &mut buf; some.serialize(&mut w).unwrap(); }
     let k = sym::usize();
     sym::assume(k < size);
     let mut r: &[u8] = &buf[..k];
